@@ -777,6 +777,11 @@ non-input initializers have type+shape (fill fixpoint)).  It is WEAKER than the 
 (restrictions (1) and (2) below are gone: the unfolding compares what the format carries); the implication
 old => new and the theorem's statement itself (`iso_tm_statement_b`) are evaluated by Coq on every generated case.
 C03_ser_deser_ser: under serializable_tm and an idempotent leaf normalisation, ser (deser (ser h)) = ser h.
+Round 6: (r6m2) every third tensor's non-input initializer is named val_<k> like the names the graph generates, and
+the oracle clause generated_name_clashes reports a library-generated output name equal to the explicit name of an
+input/initializer the graph was constructed with (such a model is outside `serializable` - duplicate name - so the
+round-trip clause alone stays silent); (r6m3) ExternalTensor leaves get base_dir "" / relative / absolute (no random
+draw); key and oracle use .location, so a base_dir leaking into the proto changes the round-tripped location.
 Round 5 (seeded C03-r5m1): STRING attributes holding byte blobs (recipe kind "bytes": invalid UTF-8, valid UTF-8, ASCII,
 empty, a lone-surrogate encoding) and STRINGS with bytes elements (kind "strsb": the leaf serializer rejects them ->
 not serializable, sbad flag).  Rule checked by IsoCheck.attr on the real objects: a str comes back as the same str; a
@@ -1516,6 +1521,9 @@ class Gen:
         elif kind == "ext":
             op.update(dtype=1, dims=[n], data=[], loc=r.choice(["nonexistent_c03/w.bin", "no_such_file.bin"]),
                       offset=r.choice([None, 0, 16]), length=r.choice([None, 4 * n]))
+            # base_dir: empty / relative (what ir.load("dir/model.onnx") gives) / absolute; never part of the proto
+            # (the key and the oracle use .location, not .path); chosen without a random draw
+            op["base_dir"] = ["", "ckpt_c03/run7", "/nonexistent_c03/abs"][self.cnt["t"] % 3]
             if op["name"] is None:
                 op["name"] = "ext"          # ExternalTensor requires a name
         elif kind == "packed":
@@ -1682,12 +1690,17 @@ class Gen:
                     inits.append(v)
                 else:
                     q = r.random()
+                    # every third tensor: the initializer is named like a name the graph generates (val_<k>), so that
+                    # the names given to unnamed node outputs have to avoid it (no extra random draw: streams unchanged)
+                    nm = f"val_{len(inits)}" if self.cnt["t"] % 3 == 1 and f"val_{len(inits)}" not in self.used else "?"
+                    if nm != "?":
+                        self.used.append(nm)
                     if q < 0.92:
-                        v = self.new_value(const=t, like_tensor=True)
+                        v = self.new_value(name=nm, const=t, like_tensor=True)
                     elif q < 0.96:
-                        v = self.new_value(const=t, fields={"doc": "only a doc"})
+                        v = self.new_value(name=nm, const=t, fields={"doc": "only a doc"})
                     else:
-                        v = self.new_value(const=t)
+                        v = self.new_value(name=nm, const=t)
                     inits.append(v)
                     own.append(v)
         n_plain = r.randrange(1, 6) if depth == 0 else r.randrange(0, 4)
@@ -3048,6 +3061,39 @@ def describe_model(model) -> str:
         return f"<unprintable model: {type(e).__name__}>"
 
 
+def generated_name_clashes(recipe: dict, env) -> list:
+    """Names the LIBRARY gave to unnamed node outputs (values the recipe never named) must avoid the explicit names
+    of the inputs / initializers the graph was constructed with (Graph registers those with its name authority
+    first): otherwise a model built through the public API alone has two values of one name in one graph, to_proto
+    writes both and from_proto rejects the result.  Only constructor-time, never-renamed names are considered."""
+    explicit, renamed, ctor = {}, set(), {}
+    for op in recipe.get("ops", []):
+        k = op.get("op")
+        if k == "value":
+            explicit[op["id"]] = op.get("name")
+        elif k == "rename":
+            renamed.add(op.get("v"))
+        elif k == "graph":
+            ctor[op["id"]] = set(op.get("ins", [])) | set(op.get("inits", []))
+    hv = {id(v): h for h, v in env.v.items()}
+    msgs = []
+    for gh, g in env.g.items():
+        fixed = {}
+        for h in ctor.get(gh, ()):
+            v = env.v.get(h)
+            if v is None or h in renamed or not explicit.get(h) or v.name != explicit[h]:
+                continue
+            if any(v is x for x in g.inputs) or any(v is x for x in g.initializers.values()):
+                fixed[v.name] = v
+        for n in g:
+            for i, o in enumerate(n.outputs):
+                h = hv.get(id(o))
+                if o.name in fixed and fixed[o.name] is not o and h not in renamed and explicit.get(h) is None:
+                    msgs.append(f"generated-name: output {i} of node {n.name!r} ({n.op_type}) was named {o.name!r} by the "
+                                f"graph: the name of an input/initializer the graph was constructed with")
+    return msgs[:3]
+
+
 def run_case(recipe: dict, want_term: bool = True, repair=None) -> dict:
     """Build the model of a recipe, run to_proto twice and from_proto on the implementation, evaluate the
     property oracle, and (want_term) produce the Coq case term.  `repair(model)` is applied before everything
@@ -3076,6 +3122,11 @@ def run_case(recipe: dict, want_term: bool = True, repair=None) -> dict:
     if internal and repair is None:
         res["oracle"] += ["inv:" + m + (f" (rejected edits in the history: {rejected[:3]})" if rejected else "")
                           for m in internal[:4]]
+    if repair is None:
+        try:
+            res["oracle"] += generated_name_clashes(recipe, env)
+        except Exception as e:  # noqa: BLE001
+            res["oracle"].append(f"harness error in generated_name_clashes: {type(e).__name__}: {e}")
     # ---- converter (before to_proto): heap + observation with one interner for the whole case
     it = Interner()
     heap = mdl = o0 = None
